@@ -20,12 +20,16 @@ Line-protocol driver for the C11 models.
   x <points> <intervalSec> | <expr> | <fld>:<ftype>:<agg>:<t>=<v>,... ...
                                                          a select item evaluated on the field store of one group
                                                          (one token per array; `<fld>:<ftype>:-` a field without arrays)
+  blk <fields of the metric> | <series id>:<len>,<len>,... ; ...
+                                                         one metric block flushed by metricsdata.flusher and read
+                                                         back by the reader: buckets, entries, series not read back
 expr (prefix): f <fld> | c <func> <expr> | n <int> | p <expr> | b <op 0..3 = + - * /> <expr> <expr>
 cond (prefix): all | eq k v | in k v,v | and c c | or c c
 -/
 import LinVerif.Util.Proto
 import LinVerif.Model.MemDB
 import LinVerif.Model.QueryExpr
+import LinVerif.Model.MetricBlock
 import LinVerif.Generated.C11
 
 namespace LinVerif.Driver.C11
@@ -268,8 +272,36 @@ def showPage (b : Buf) : String :=
     | none => "-"
   s!"has={b.hasData} start={b.start} end={b.endd} cells={showCells b.cells} compress={c}"
 
+/-- the variant of the metric block writer the regenerated facts describe. -/
+def blockCfgOfFacts : MetricBlock.Cfg := ⟨Generated.C11.rebaseLevel4AfterBucketFooter⟩
+
+/-- `<sid>:<len>,<len>,...` -/
+def parseBlkSeries (w : String) : Option (Nat × List Nat) :=
+  match w.splitOn ":" with
+  | [a, b] => do
+    let sid ← a.toNat?
+    let lens ← natCsv? b
+    some (sid, lens)
+  | _ => none
+
+def ascending : List Nat → Bool
+  | a :: b :: rest => a < b && ascending (b :: rest)
+  | _ => true
+
+/-- op `blk`. -/
+def runBlk (nf : Nat) (series : List (Nat × List Nat)) : String :=
+  let b := MetricBlock.flushBlock blockCfgOfFacts MetricBlock.Enc.simple nf series
+  let lost := MetricBlock.lostSeries blockCfgOfFacts MetricBlock.Enc.simple nf series
+  s!"buckets={(MetricBlock.highKeys b.w.ids).length} offsets={b.w.highOffs.length} entries={b.w.ids.length} lost={if lost.isEmpty then "-" else Proto.joinNat lost}"
+
 def step (st : St) (ws : List String) : St × String :=
   match ws with
+  | "blk" :: nf :: "|" :: rest =>
+    match nf.toNat?, (rest.filter (· ≠ ";")).mapM parseBlkSeries with
+    | some nf, some series =>
+      if nf = 0 ∨ !ascending (series.map Prod.fst) ∨ series.any (fun s => s.2.length ≠ nf) then (st, "bad-op")
+      else (st, runBlk nf series)
+    | _, _ => (st, "bad-op")
   | ["reset", w, spf] =>
     match w.toNat?, spf.toNat? with
     | some w, some spf => if w = 0 ∨ spf = 0 then (st, "bad-op") else (⟨none, Shard.initV cfgOfFacts w, spf, [], []⟩, "ok")
